@@ -86,8 +86,8 @@ def random_history(rng):
 
 class Prop(object):
     id = "C01"
-    lean_modules = ["VC2.Props.C01"]
-    status = "partial"
+    lean_modules = ["VC2.Props.C01", "VC2.Props.C01History"]
+    status = "full"
     rule = ("abstract data-unit histories (sequence headers identical/differing, pictures, other-profile pictures, first/continuation "
             "fragments with slice counts/offsets, padding, auxiliary data, end of sequence; correct/zero/wrong/short parse offsets; picture numbers "
             "consecutive/skipped/repeated/wrapping) x profiles x frame/field coding x major versions {auto,1,2,3} x the distinct real level patterns, "
@@ -175,6 +175,19 @@ class Prop(object):
                 if nref <= 3:
                     ctx.notes.append("reference acceptor disagrees with the validator on %s: %s vs %s (%s)" % (hist, res, ok, why))
         ctx.count("reference:disagreements", nref)
+        # the rule-level specification proved equivalent to the validator model (validator_accepts_iff_conformant)
+        # must meet its hypothesis on these histories (wf=1) and agree with the Python reference acceptor (the search oracle)
+        cs_lines, cs_exp = [], []
+        for line, ((hist, cfg, pat), (res, pics)) in zip(lines, self._results):
+            try:
+                data, flat, versions = S.build(cfg, hist)
+                ok, why = S.reference_accepts(flat, cfg.slices, pat)
+            except Exception:  # noqa
+                continue
+            cs_lines.append("cs" + line[2:])
+            cs_exp.append("wf=1 conf=%d" % (1 if ok else 0))
+            ctx.count("cs:conformant" if ok else "cs:not-conformant")
+        ctx.diff("cs rule-level specification (Lean, proved equivalent to the validator model) == Python reference acceptor; histories well-formed", cs_lines, cs_exp)
         if bad:
             ctx.broke("correspondence", "vd", {"disagreements": len(bad), "first": bad[:4]})
 
